@@ -133,6 +133,9 @@ func c10(r *h.Result, rng *h.Rng, tier string, replay string) error {
 	if err := c10ShapeMetric(r, rng.Fork(), no); err != nil {
 		return err
 	}
+	if err := c10ShapeMetricX(r, rng.Fork(), no); err != nil {
+		return err
+	}
 	if err := c10Census(r); err != nil {
 		return err
 	}
@@ -166,6 +169,10 @@ func c10(r *h.Result, rng *h.Rng, tier string, replay string) error {
 		return err
 	}
 	if err := c13ModelSeries(r, rng.Fork(), nt); err != nil {
+		return err
+	}
+	// … plan_closed_metricx / same_shape_metricx (C08's text tie of the labelled metric path)
+	if err := c08TextX(r, rng.Fork(), nt, mgen{extraFns: true, ms: true}); err != nil {
 		return err
 	}
 	return nil
